@@ -134,11 +134,14 @@ Proof. unfold keeps. intros a b c H1 H2. intuition congruence. Qed.
 
 (* frame trace: the FSM state is s all along, every publication carries it and the Master of the moment,
    automatic tokens are emitted only while the Master is `me`; m' is the Master at the end *)
+(* the final orders to the local Supervisor (C09): never part of a frame trace *)
+Definition is_final_order (o : output) : bool := match o with SendRestart | SendShutdown => true | _ => false end.
+
 Fixpoint fr (me : Z) (s : sstate) (m : Z) (outs : list output) (m' : Z) : Prop :=
   match outs with
   | [] => m' = m
   | Publish f _ pm _ :: r => f = scode s /\ fr me s pm r m'
-  | o :: r => (is_auto_token o = true -> m = me) /\ fr me s m r m'
+  | o :: r => ((is_auto_token o = true -> m = me) /\ is_final_order o = false) /\ fr me s m r m'
   end.
 
 Lemma fr_app : forall me s o1 o2 m m1 m2,
@@ -171,22 +174,25 @@ Qed.
 Definition is_publish (o : output) : bool := match o with Publish _ _ _ _ => true | _ => false end.
 
 (* tokens that are not automatic actions *)
-Lemma FR_plain : forall n l, forallb (fun o => negb (is_publish o) && negb (is_auto_token o)) l = true -> FR n l n.
+Lemma FR_plain : forall n l,
+  forallb (fun o => negb (is_publish o) && negb (is_auto_token o) && negb (is_final_order o)) l = true -> FR n l n.
 Proof.
   intros n l H. split; [apply keeps_refl|]. split; [reflexivity|].
   induction l as [|o r IH]; simpl in *; [reflexivity|].
   apply andb_prop in H. destruct H as [Ho Hr].
-  destruct o; simpl in Ho; try discriminate; (split; [intro X; simpl in X; discriminate X|apply IH; exact Hr]).
+  destruct o; simpl in Ho; try discriminate;
+    (split; [split; [intro X; simpl in X; discriminate X|reflexivity]|apply IH; exact Hr]).
 Qed.
 
 (* tokens emitted by the Master *)
-Lemma FR_by_master : forall n l, is_master n = true -> forallb (fun o => negb (is_publish o)) l = true -> FR n l n.
+Lemma FR_by_master : forall n l, is_master n = true ->
+  forallb (fun o => negb (is_publish o) && negb (is_final_order o)) l = true -> FR n l n.
 Proof.
   intros n l M H. split; [apply keeps_refl|]. split; [reflexivity|].
   unfold is_master in M. apply Z.eqb_eq in M.
   induction l as [|o r IH]; simpl in *; [reflexivity|].
   apply andb_prop in H. destruct H as [Ho Hr].
-  destruct o; simpl in Ho; try discriminate; (split; [intros _; exact M|apply IH; exact Hr]).
+  destruct o; simpl in Ho; try discriminate; (split; [split; [intros _; exact M|reflexivity]|apply IH; exact Hr]).
 Qed.
 
 Lemma FR_publish : forall n, FR n [publish n] n.
@@ -455,7 +461,7 @@ Proof.
     destruct (ms_consistence n2 lost) as [[[n3 o3] d3]|k] eqn:E3; [|discriminate]. apply ms_consistence_FR in E3.
     destruct d3; [inversion H; subst; repeat fr_step|].
     destruct (is_master n3) eqn:M; [|inversion H; subst; repeat fr_step].
-    assert (BM : forall l, forallb (fun o => negb (is_publish o)) l = true -> FR n3 l n3)
+    assert (BM : forall l, forallb (fun o => negb (is_publish o) && negb (is_final_order o)) l = true -> FR n3 l n3)
       by (intros l Hl; apply FR_by_master; [exact M|exact Hl]).
     destruct (or_starting orc || or_stopping orc);
       [inversion H; subst; repeat fr_step; try (apply BM; destruct lostp; reflexivity)|].
@@ -501,7 +507,7 @@ Lemma fr_tr : forall Q me s outs m m', fr me s m outs m' -> tr Q me s m outs s m
 Proof.
   intros Q me s outs. induction outs as [|o r IH]; simpl; intros m m' H.
   - split; [reflexivity|exact H].
-  - destruct o; try (destruct H as [Ha Hb]; split; [exact Ha|apply IH; exact Hb]).
+  - destruct o; try (destruct H as [Ha Hb]; split; [exact (proj1 Ha)|apply IH; exact Hb]).
     destruct H as [Ha Hb]. exists s. split; [exact Ha|]. split; [left; reflexivity|apply IH; exact Hb].
 Qed.
 
@@ -559,8 +565,11 @@ Proof.
   apply FR_silent; [repeat split|reflexivity].
 Qed.
 
-Lemma exit_outputs_FR : forall n s, FR n (exit_outputs s) n.
-Proof. intros n s. apply FR_plain. destruct s; reflexivity. Qed.
+Lemma exit_outputs_TR : forall Q n s, TR Q n (exit_outputs s) n.
+Proof.
+  intros Q n s. split; [apply keeps_refl|].
+  destruct s; simpl; repeat split; intro X; discriminate X.
+Qed.
 
 (* ---------- the set_state loop, generic in an invariant ---------- *)
 Section SetState.
@@ -603,7 +612,7 @@ Section SetState.
       apply set_fsm_TR with (Q := Q) in E1; [|exact Eok|exact HQ]. destruct E1 as [T1 _].
       apply enter_state_FR in E2. apply fsm_next_FR in E3.
       eapply TR_trans; [|exact T].
-      eapply TR_trans; [apply FR_TR; apply exit_outputs_FR|].
+      eapply TR_trans; [apply exit_outputs_TR|].
       eapply TR_trans; [exact T1|].
       eapply TR_trans; [apply FR_TR; exact E2|]. apply FR_TR. exact E3.
   Qed.
